@@ -403,6 +403,18 @@ pub fn check_c15(tier: Tier) -> i32 {
     c15_tiny::<unsync::Arena>(&run, b, u);
   }
   crate::props_sched::c15_concurrent(&run, thorough);
+  {
+    // every fill state a short history reaches (allocations of every kind, releases, discard_freelist, accounting
+    // calls, rewinds, clear): slices and readers are checked around the cursor and the capacity after every step
+    use Op::*;
+    use Sz::*;
+    let alphabet = vec![B(N(7)), B(N(40)), B(R), B(Rp(1)), T(U64), AB(A16, N(9)), AB(U64, Rm(8)), BO(N(16)), D(0), D(1), Disc, IncDisc(3), SetMin(0), Rewind(Pos::Start(0)), Rewind(Pos::End(0)), Rewind(Pos::Cur(-9)), Rewind(Pos::Cur(1 << 40)), Clear];
+    let depth = if thorough { 4 } else { 3 };
+    let spec = Spec { alphabet: alphabet.clone(), depth, oracles: O_READERS, sync: true, unsync: true, diff: false, diff_prop: "C15" };
+    let hcells: Vec<Cfg> = crate::props_hist::cells(&[(Backend::Vec, false), (Backend::Vec, true), (Backend::File, true)], 225, 256);
+    explore(&run, &spec, &hcells, &[Start::fresh(), fragmented_starts()[1].clone(), fragmented_starts()[4].clone()], "C15");
+    run.set("history_pass", json!({"depth": depth, "alphabet": alphabet.iter().map(|o| o.short()).collect::<Vec<_>>(), "cells": hcells.len(), "starts": 3}));
+  }
   for b in [Backend::Vec, Backend::File] {
     c15_varint_values::<sync::Arena>(&run, b);
     c15_varint_values::<unsync::Arena>(&run, b);
@@ -653,6 +665,41 @@ fn c16_construct<A: Subject>(run: &Run, reserved: u32, cap: u32, unify: bool, ba
   c16_construct_at::<A>(run, reserved, cap, unify, backend, 0)
 }
 
+/// every descriptive accessor of an arena value (all but refs())
+#[allow(clippy::type_complexity)]
+fn acc_all<A: Subject>(a: &A) -> ((usize, usize, usize, bool, bool, u16, u16, u32), (usize, u32, usize, [bool; 5], bool, usize)) {
+  ((a.data_offset(), a.capacity(), a.reserved_bytes(), a.unify(), a.read_only(), a.magic_version(), a.version(), a.minimum_segment_size()), (a.allocated(), a.discarded(), a.remaining(), [a.is_map(), a.is_ondisk(), a.is_inmemory(), a.is_map_anon(), a.is_map_file()], a.path().is_some(), a.page_size()))
+}
+
+/// a clone (and a clone of the clone) describes the same arena: same accessors, one more reference each
+fn c16_clones_agree<A: Subject>(run: &Run, a: &A, what: &str, case: &serde_json::Value) {
+  let base = acc_all(a);
+  let r0 = a.refs();
+  let c1 = a.clone();
+  let c2 = c1.clone();
+  let mut bad = vec![];
+  if acc_all(&c1) != base {
+    bad.push(format!("clone reports {:?}, the original {:?}", acc_all(&c1), base));
+  }
+  if acc_all(&c2) != base {
+    bad.push(format!("clone of a clone reports {:?}, the original {:?}", acc_all(&c2), base));
+  }
+  if a.refs() != r0 + 2 || c2.refs() != r0 + 2 {
+    bad.push(format!("refs {} / {} with two clones alive (was {})", a.refs(), c2.refs(), r0));
+  }
+  if c1.reserved_slice().len() != a.reserved_slice().len() || c1.memory().as_ptr() != a.memory().as_ptr() {
+    bad.push("reserved_slice / memory of the clone differ from the original's".into());
+  }
+  drop(c1);
+  drop(c2);
+  if acc_all(a) != base || a.refs() != r0 {
+    bad.push(format!("after dropping the clones the original reports {:?} refs {} (was {:?} refs {})", acc_all(a), a.refs(), base, r0));
+  }
+  if !bad.is_empty() {
+    viol(run, "C16", &format!("clone-accessors:{}", what), format!("[{} {}] {}", A::FLAVOUR, what, bad.join("; ")), case.clone());
+  }
+}
+
 /// `file_offset` > 0: a file arena whose window starts at that offset of the file
 fn c16_construct_at<A: Subject>(run: &Run, reserved: u32, cap: u32, unify: bool, backend: Backend, file_offset: u32) {
   let mut cfg = Cfg::new(Fl::Optimistic, backend, unify, cap);
@@ -717,6 +764,7 @@ fn c16_construct_at<A: Subject>(run: &Run, reserved: u32, cap: u32, unify: bool,
         if !bad.is_empty() {
           viol(run, "C16", "accessors", format!("[{} {:?} unify={} reserved {} capacity {}] {}", A::FLAVOUR, backend, unify, reserved, cap, bad.join("; ")), case.clone());
         }
+        c16_clones_agree(run, &a, "constructed", &case);
         run.nontrivial.insert(hash_of(&(reserved, cap, unify, backend as u8, A::SYNC)));
         if backend == Backend::File {
           // an arena that could be created can be opened again in every mode, with the same layout
@@ -734,6 +782,7 @@ fn c16_construct_at<A: Subject>(run: &Run, reserved: u32, cap: u32, unify: bool,
                 if b.magic_version() != 7 || b.version() != 0 || b.minimum_segment_size() != 13 || b.allocated() != want_dof || b.discarded() != 0 || b.remaining() != cap as usize - want_dof || !b.is_map_file() || !b.is_ondisk() || b.is_inmemory() || b.path().is_none() || b.refs() != 1 {
                   viol(run, "C16", &format!("reopen-accessors:{:?}", mode), format!("[{} reserved {} capacity {}] {:?} reopen: magic_version {} version {} minimum_segment_size {} allocated {} discarded {} remaining {} is_map_file {} is_ondisk {} is_inmemory {} path {:?} refs {}", A::FLAVOUR, reserved, cap, mode, b.magic_version(), b.version(), b.minimum_segment_size(), b.allocated(), b.discarded(), b.remaining(), b.is_map_file(), b.is_ondisk(), b.is_inmemory(), b.path().is_some(), b.refs()), case.clone());
                 }
+                c16_clones_agree(run, &b, &format!("{:?}", mode), &case);
               }
             }
             run.eval(1);
@@ -988,7 +1037,8 @@ pub fn c11_rewind_grid(run: &Run) {
 
 fn c17_rewind_grid<A: Subject>(run: &Run, cfg: &Cfg) {
   // states: a few cursor positions with a live free list below them
-  for pre in [vec![], vec![Op::B(Sz::N(1))], vec![Op::B(Sz::N(40)), Op::B(Sz::N(16)), Op::D(0)], vec![Op::B(Sz::R)], vec![Op::B(Sz::N(40)), Op::B(Sz::N(16)), Op::B(Sz::R), Op::D(0)]] {
+  // (the last two leave written bytes above the cursor: a seek over them must not change them)
+  for pre in [vec![], vec![Op::B(Sz::N(1))], vec![Op::B(Sz::N(40)), Op::B(Sz::N(16)), Op::D(0)], vec![Op::B(Sz::R)], vec![Op::B(Sz::N(40)), Op::B(Sz::N(16)), Op::B(Sz::R), Op::D(0)], vec![Op::B(Sz::N(40)), Op::Rewind(Pos::Cur(-30))], vec![Op::B(Sz::R), Op::Rewind(Pos::Start(0))]] {
     let probe = Runner::<A>::new(cfg).unwrap();
     let (dof, cap) = (cfg.data_offset() as u32, cfg.cap);
     drop(probe);
@@ -1192,6 +1242,7 @@ fn c18_cell(run: &Run, cfg: &Cfg, alphabet: &[Op], depth: usize, ns: &[usize], s
       let word: Vec<Op> = idx.iter().map(|i| alphabet[*i]).collect();
       // find the enabled prefix once
       let mut cut = None;
+      let mut al_after = 0usize;
       {
         let mut r = Runner::<U>::new(cfg).unwrap();
         let mut v = vec![];
@@ -1209,9 +1260,18 @@ fn c18_cell(run: &Run, cfg: &Cfg, alphabet: &[Op], depth: usize, ns: &[usize], s
             break;
           }
         }
+        al_after = r.a.allocated();
       }
       if cut.is_none() {
-        for &nn in ns {
+        // the grid, and the sizes that leave 0..=17 bytes behind the cursor this history ends at (where a padded
+        // request fits with its payload but not with its padding)
+        let mut all_ns: Vec<usize> = ns.to_vec();
+        for k in 0..=17usize {
+          if !all_ns.contains(&(al_after + k)) {
+            all_ns.push(al_after + k);
+          }
+        }
+        for &nn in &all_ns {
           let mut r = Runner::<U>::new(cfg).unwrap();
           let mut v = vec![];
           for su in &st.setup {
@@ -1276,6 +1336,13 @@ fn c18_cell(run: &Run, cfg: &Cfg, alphabet: &[Op], depth: usize, ns: &[usize], s
               if start + 8 <= want_cap as u64 { Some((want_cap as u64 - start - 8) as u32) } else { None }
             };
             let mut fops: Vec<Op> = if nn % 2 == 0 { vec![Op::B(Sz::N(1)), Op::B(Sz::N(rem)), Op::B(Sz::N(rem + 1)), Op::B(Sz::N(33))] } else { vec![] };
+            if rem <= 17 {
+              // little room: each padded flavour goes first in turn (whether it fits depends on the padding)
+              let padded = [Op::AB(U64, Sz::N(0)), Op::T(U64), Op::AB(A16, Sz::N(0)), Op::AB(U64, Sz::N(1)), Op::T(Ty::L(4, 4)), Op::AB(Ty::L(2, 2), Sz::N(rem.saturating_sub(2)))];
+              let first = (nn + word.len()) % padded.len();
+              fops = (0..padded.len()).map(|i| padded[(first + i) % padded.len()]).collect();
+              fops.push(Op::B(Sz::R));
+            }
             if nn % 2 == 1 {
               // every other odd size asks for the typed value first: it may fit with less than align - 1 bytes to spare
               if nn % 4 == 3 {
